@@ -17,6 +17,9 @@ SHRINK = None
 def gen(rng, i, tier):
     e = ENTRIES[int(rng.integers(0, len(ENTRIES)))]
     c = cases.make_case(rng, e, maxn=50 if tier == "quick" else 400)
+    if rng.random() < 0.1 and not c["meta"]["window"]:
+        # the same table listed from high to low abscissa (time-of-flight order): every named transform is still conversion ; core ; conversion
+        c["args"] = [None if a is None else np.asarray(a)[::-1].copy() if k in (0, 1, 3) else a for k, a in enumerate(c["args"])]
     return dict(entry=e, args=[tolist(a) for a in c["args"]], kw=c["kw"], lorch=c["meta"]["lorch"], omitted=c["meta"]["omitted"],
                 window=c["meta"]["window"], unc=c["meta"]["unc"])
 
